@@ -547,7 +547,12 @@ func (c *C) Close() error {
 			c.Log.Error("QUIT error", c.wrapClientErr(err, c.serverName))
 		}
 
-		return c.cl.Close()
+		// The connection is gone either way; Client() must not keep
+		// reporting it (callers use Client() == nil as "not connected").
+		closeErr := c.cl.Close()
+		c.cl = nil
+		c.serverName = ""
+		return closeErr
 	}
 
 	c.cl = nil
